@@ -194,7 +194,16 @@ Lemma drop_prefix_app : forall b p, drop_prefix b (b ++ p) = p.
 Proof. intros. apply skipn_length_app. Qed.
 
 Theorem strip_base_prefix_path : forall b p, sane_path p -> strip_base b (b ++ p) = DOk p.
-Proof. intros b p Hp. unfold strip_base. rewrite under_prefix_app by exact Hp. rewrite drop_prefix_app. reflexivity. Qed.
+Proof.
+  intros b p Hp. unfold strip_base, strip_prefix. rewrite under_prefix_app by exact Hp. rewrite drop_prefix_app.
+  destruct (sane_path_starts p Hp) as (r & ->). reflexivity.
+Qed.
+
+Lemma strip_prefix_app : forall b p, sane_path p -> strip_prefix b (b ++ p) = Some p.
+Proof.
+  intros b p Hp. unfold strip_prefix. rewrite under_prefix_app by exact Hp. rewrite drop_prefix_app.
+  destruct (sane_path_starts p Hp) as (r & ->). reflexivity.
+Qed.
 
 (* the first two characters of base ++ p: "/" then something else, or "/" alone *)
 Lemma prefix_path_head : forall b p, sane_prefix b -> sane_path p ->
